@@ -52,6 +52,9 @@ func (c10) Generate(r *engine.Rand, index int, tier string) *engine.Scenario {
 		// every cartridge with the clock: with and without RAM, every declared RAM size, several ROM sizes
 		sc.Cart.RamCode = engine.Pick(r, []uint8{0, 1, 2, 4, 5})
 		sc.Cart.RomCode = uint8(r.Intn(5))
+		if r.Chance(1, 6) {
+			sc.Cart.RomCode = uint8(r.Range(5, 8)) // up to the 8 MiB a header can declare
+		}
 		if sc.Cart.RamCode == 0 {
 			sc.Cart.Type = 0x0f
 		}
@@ -115,6 +118,15 @@ func (c10) Generate(r *engine.Rand, index int, tier string) *engine.Scenario {
 			}
 		case k < 2:
 			add(engine.Event{K: "bus_w", A: 0x6000 + uint16(r.Intn(0x2000)), V: r.Byte() &^ 1, S: "latch0"})
+			if r.Chance(1, 30) {
+				// a guest that keeps writing 0 to the latch register (hundreds of times) before the 1
+				for j, q := 0, engine.Pick(r, []int{254, 255, 256, 257, 511, 512, 600}); j < q; j++ {
+					at += uint64(r.Range(1, 3))
+					add(engine.Event{K: "bus_w", A: 0x6000 + uint16(r.Intn(0x2000)), V: 0x00, S: "latch0"})
+				}
+				at += uint64(r.Range(1, 3))
+				add(engine.Event{K: "bus_w", A: 0x6000 + uint16(r.Intn(0x2000)), V: 0x01, S: "latch1"})
+			}
 		case k < 4:
 			add(engine.Event{K: "bus_w", A: 0x6000 + uint16(r.Intn(0x2000)), V: r.Byte() | 1, S: "latch1"})
 		case k < 6:
